@@ -452,14 +452,3 @@ Proof.
   cbn in H. apply andb_prop in H. destruct H as [H1 H2]. apply Z.ltb_lt in H1. split; [exact H1|]. apply IH, H2.
 Qed.
 
-Theorem model_meets_spec t now ch f : wf t -> in_domain ch f = true ->
-  spec_step t now ch f (obs_of_result (step_repo t now ch f)) = true.
-Proof.
-  intros Hwf D. destruct f as [v|ru v|ic|ic|vs|os v|ru b vs|ru tgt v|ru ms|v|vs|ru v|i rg a q]; try discriminate D.
-  - apply save_meets_spec, Hwf.
-  - apply upsert_meets_spec, Hwf.
-  - cbn [in_domain] in D. repeat (apply andb_prop in D; destruct D as [D ?]).
-    apply init_meets_spec; try assumption. now apply conds_dom_no_del.
-  - cbn [in_domain] in D. repeat (apply andb_prop in D; destruct D as [D ?]).
-    apply foc_meets_spec; try assumption. now apply negb_true_iff.
-Qed.
